@@ -125,3 +125,9 @@ From Scrapli Require Import ChanReadSrc.
 Theorem C01_chan_read_round_is_source : chan_read_table_ok = true.
 Proof. exact chan_read_round_is_source. Qed.
 Print Assumptions C01_chan_read_round_is_source.
+
+(* Channel.processOut as translated: the steps of Channel.process_out and their order *)
+From Scrapli Require Import ProcessOutSrc.
+Theorem C01_process_out_is_source : process_out_src_ok = true.
+Proof. exact process_out_is_source. Qed.
+Print Assumptions C01_process_out_is_source.
